@@ -10,7 +10,8 @@ RULE = ("ask_interactively(version, all_metrics) for versions 2, 3.0, 3.1, 4.0 x
         "answers (valid in any letter case / padding, empty for Not Defined, invalid, premature end of input): questions "
         "asked, answers consumed and result compared with an independent simulation of the statement and with the "
         "Lean model; every (metric, legal value) of every version selected once by its own spelling; distinct = "
-        "distinct (version, all?, answer script)")
+        "distinct (version, all?, answer script)"
+        " + runs of 1,300-12,000 illegal answers to one question; the question order is learned behaviourally (result vector / cyclic token feed), never read from the prompts")
 ASSUMPTIONS = ["case-insensitive matching is ASCII case folding; answers are ASCII except a few probes"]
 
 
